@@ -53,7 +53,7 @@ macro_rules! gnu_total {
         pub fn $name() {
             let tb: [u8; $t] = kani::any();
             let sb: [u8; $s] = kani::any();
-            let e = any_endian();
+            let e = AnyEndian::Little;
             let symtab: elf::symbol::SymbolTable<'_, AnyEndian> = elf::parse::ParsingTable::new(e, $class, &sb);
             let rb: [u8; 3] = [kani::any(), kani::any(), 0];
             let strtab = elf::string_table::StringTable::new(&rb);
@@ -66,16 +66,16 @@ macro_rules! gnu_total {
         }
     };
 }
-gnu_total!(gnu_find_total_elf64, Class::ELF64, 36, 48);
-gnu_total!(gnu_find_total_elf32, Class::ELF32, 32, 32);
+gnu_total!(gnu_find_total_elf64, Class::ELF64, 36, 24);
+gnu_total!(gnu_find_total_elf32, Class::ELF32, 28, 16);
 
 /// SysVHashTable::new + find on arbitrary table bytes: totality.
 #[kani::proof]
 #[kani::unwind(7)]
 pub fn sysv_find_total() {
-    let tb: [u8; 28] = kani::any();
+    let tb: [u8; 24] = kani::any();
     let sb: [u8; 32] = kani::any();
-    let e = any_endian();
+    let e = AnyEndian::Little;
     let symtab: elf::symbol::SymbolTable<'_, AnyEndian> = elf::parse::ParsingTable::new(e, Class::ELF32, &sb);
     let rb: [u8; 3] = [kani::any(), kani::any(), 0];
     let strtab = elf::string_table::StringTable::new(&rb);
